@@ -1,4 +1,5 @@
 import BR.Lemmas.LruOrder
+import BR.Bridge.Lru
 /-!
 # C17 — max_size_hard_limit refuses overload with a retryable error; reads continue
 
